@@ -26,6 +26,7 @@ import Driver.Downloader
 import Driver.Frame
 import Driver.LedgerNode
 import Driver.VdbCache
+import Driver.Translated
 /-
 One line per handler object. The first handler that understands a line answers it.
 -/
@@ -33,6 +34,7 @@ namespace ZV.Driver
 
 def registry : List Obj := [
   pureObj purePow,
+  pureObj pureTranslated,
   pureObj pureRpc,
   vdbObj,
   ledgerObj,
